@@ -206,6 +206,19 @@ CLAIMED: dict[str, tuple[str, str, str, str, str]] = {
         "bounded-exhaustive abstract evaluation of the unifier against a reference + exhaustiveness table",
         "DESIGN §5 C12",
     ),
+    "C11": (
+        "other",
+        "Decides the 'no hidden session writes' clause: every syntactic write to state that outlives one check/compile call "
+        "(user namespace dictionaries, global rebinding, the DEF_STORE/ENGINE singletons, module- and class-level mutable "
+        "objects, memo decorators) in both packages is enumerated and must be in a reviewed table keyed by the writing "
+        "function (decoration-time registration, name counters, the C23/C33 save-restore pairs, ...); every compile re-checks "
+        "from a reset engine with a fresh context; compile-phase mutations of checked objects are guarded; ambient state set by "
+        "context managers is restored in finally (two reviewed exceptions). Equality of the HUGRs of two runs is not decided.",
+        "Trusted: ast parser; writes are recognised syntactically (attribute/subscript stores, mutating container methods, "
+        "next() on counters, register_* calls); aliasing of a persistent object through a local variable is not tracked.",
+        "MOD-style who-may-write enumeration against a reviewed table + must-call ordering on the CFG",
+        "DESIGN §5 C11",
+    ),
 }
 
 NOT_APPLICABLE: dict[str, str] = {
